@@ -172,7 +172,7 @@ Lemma run_rule_keeps_open cfg st r anc inh fhb st' res fld ev :
   run_rule cfg st r anc inh fhb = (st', res, fld, ev) -> keeps_open (fmt_of ev).
 Proof.
   unfold run_rule. cbv zeta.
-  set (hc := negb (c_dry cfg) && rule_should_run cfg anc r).
+  set (hc := negb (c_dry cfg) && rule_runs cfg anc r).
   assert (F1 : forall st1 hf e, (if hc then
         let '(sa, b1, e1) := run_tag_hooks cfg (push st) HBeforeTag (r_tags r) in
         let '(sb, b2, e2) := run_hook cfg sa HBeforeRule (r_id r) in (sb, b1 || b2, e1 ++ e2)
@@ -204,7 +204,7 @@ Proof.
   intros E; inversion E; subst; clear E.
   rewrite !fmt_of_app, F1, F3, E4. cbn [app]. rewrite app_nil_r.
   apply keeps_open_app; [|exact E3].
-  destruct (rule_should_run cfg anc r || c_show_skipped cfg); [|apply keeps_open_nil].
+  destruct (rule_runs cfg anc r || c_show_skipped cfg); [|apply keeps_open_nil].
   cbn [fmt_of].
   replace (fmt_of (if match r_bg r with Some _ => true | None => fhb end
                    then [EFmt (FBackground (map st_id (opt_steps (r_bg r))))] else []))
@@ -246,7 +246,7 @@ Variable cfg : config.
 Hypothesis Hshow : c_show_skipped cfg = false.
 
 Lemma silent_rows all_steps oe anc rows : forall st stopped st' rs fld ev,
-  forallb (fun rw => negb (c_expr cfg (rw_tags rw ++ anc))) rows = true ->
+  forallb (fun rw => negb (sel cfg (rw_tags rw ++ anc))) rows = true ->
   run_rows cfg st all_steps oe anc rows stopped = (st', rs, fld, ev) -> fmt_of ev = [].
 Proof.
   induction rows as [|rw r IH]; intros st stopped st' rs fld ev Hall; cbn [run_rows].
@@ -269,13 +269,13 @@ Proof.
 Qed.
 
 Lemma silent_sitem st bg anc it st' res fld ev :
-  sitem_should_run cfg anc it = false ->
+  sitem_any_sel cfg anc it = false ->
   run_sitem cfg st bg anc it = (st', res, fld, ev) -> fmt_of ev = [].
 Proof.
-  destruct it as [s|o]; cbn [sitem_should_run run_sitem]; intros Hs.
+  destruct it as [s|o]; cbn [sitem_any_sel run_sitem]; intros Hs.
   - rewrite (run_scenario_unselected _ _ _ _ _ _ _ Hs). rewrite Hshow.
     intros E; inversion E; subst. reflexivity.
-  - apply orb_false_iff in Hs as [_ Hrows]. apply existsb_false_forallb in Hrows.
+  - rename Hs into Hrows. apply existsb_false_forallb in Hrows.
     unfold run_outline.
     match goal with |- context [run_rows ?a ?b ?c0 ?d ?e ?f ?g] =>
       destruct (run_rows a b c0 d e f g) as [[[st1 r1] f1] e1] eqn:E1 end.
@@ -283,7 +283,7 @@ Proof.
 Qed.
 
 Lemma silent_sitems bg anc items : forall st stopped st' rs fld ev,
-  forallb (fun it => negb (sitem_should_run cfg anc it)) items = true ->
+  forallb (fun it => negb (sitem_any_sel cfg anc it)) items = true ->
   run_sitems cfg st bg anc items stopped = (st', rs, fld, ev) -> fmt_of ev = [].
 Proof.
   induction items as [|it r IH]; intros st stopped st' rs fld ev Hall; cbn [run_sitems].
@@ -300,12 +300,18 @@ Proof.
 Qed.
 
 Lemma silent_rule st r anc inh fhb st' res fld ev :
-  rule_should_run cfg anc r = false ->
+  rule_runs cfg anc r = false ->
   run_rule cfg st r anc inh fhb = (st', res, fld, ev) -> fmt_of ev = [].
 Proof.
   intros Hs. unfold run_rule. rewrite Hs, Hshow. rewrite andb_false_r. cbn [orb].
-  unfold rule_should_run in Hs. apply orb_false_iff in Hs as [_ Hitems].
-  apply existsb_false_forallb in Hitems.
+  assert (Hitems : forallb (fun it => negb (sitem_any_sel cfg (r_tags r ++ anc) it)) (r_items r) = true).
+  { rewrite forallb_forall. intros x Hx. apply negb_true_iff.
+    unfold rule_runs in Hs. apply andb_false_iff in Hs as [Hs|Hs].
+    - apply sitem_any_sel_le. unfold rule_should_run in Hs. apply orb_false_iff in Hs as [_ Hi].
+      destruct (sitem_should_run cfg (r_tags r ++ anc) x) eqn:Ex; [|reflexivity].
+      assert (existsb (sitem_should_run cfg (r_tags r ++ anc)) (r_items r) = true)
+        by (apply existsb_exists; exists x; auto). congruence.
+    - apply sitem_any_sel_excluded. now apply negb_false_iff in Hs. }
   match goal with |- context [run_sitems ?a ?b ?c0 ?d ?e ?f] =>
     destruct (run_sitems a b c0 d e f) as [[[st2 rs] itf] evi] eqn:E3 end.
   apply silent_sitems in E3; [|assumption].
@@ -314,7 +320,7 @@ Proof.
 Qed.
 
 Lemma silent_fitems bg hb anc items : forall st stopped st' rs fld ev,
-  forallb (fun it => negb (fitem_should_run cfg anc it)) items = true ->
+  forallb (fun it => negb (fitem_runs cfg anc it)) items = true ->
   run_fitems cfg st bg hb anc items stopped = (st', rs, fld, ev) -> fmt_of ev = [].
 Proof.
   induction items as [|it r IH]; intros st stopped st' rs fld ev Hall; cbn [run_fitems].
@@ -324,7 +330,7 @@ Proof.
     + destruct (run_fitems cfg st bg hb anc r true) as [[[st2 rs2] f2] ev2] eqn:E2.
       intros E; inversion E; subst. eapply IH; eauto.
     + assert (S1 : forall st1 res fld1 ev1, run_fitem cfg st bg hb anc it = (st1, res, fld1, ev1) -> fmt_of ev1 = []).
-      { intros st1 res fld1 ev1. destruct it as [i|rl]; cbn [run_fitem fitem_should_run] in *.
+      { intros st1 res fld1 ev1. destruct it as [i|rl]; cbn [run_fitem fitem_runs] in *.
         - destruct (run_sitem cfg st bg anc i) as [[[sa ra] fa] ea] eqn:Ea. apply silent_sitem in Ea; [|assumption].
           intros E; inversion E; subst. exact Ea.
         - destruct (run_rule cfg st rl anc bg hb) as [[[sa ra] fa] ea] eqn:Ea. apply silent_rule in Ea; [|assumption].
@@ -376,7 +382,7 @@ Proof.
   destruct (pop st3) as [[st4 cr] evp] eqn:E4. apply pop_fmt in E4.
   intros E; inversion E; subst; clear E.
   rewrite !fmt_of_app, F1, F3, E4. cbn [app].
-  destruct (feature_should_run cfg f) eqn:Hs; cbn [orb].
+  destruct (feature_runs cfg hc f) eqn:Hs; cbn [orb].
   - (* shown: FFeature [FBackground] items FEof *)
     cbn [fmt_of proto_fold proto_step].
     apply run_fitems_keeps_open in E3.
@@ -397,10 +403,20 @@ Proof.
       destruct O as (s1 & O1 & O2). rewrite <- app_comm_cons. cbn [proto_fold proto_step]. rewrite proto_fold_app, O1.
       destruct (E3 s1 O2) as (s2 & P2 & (a & q & ->)). rewrite proto_fold_app, P2.
       cbn. exists PStart. split; [reflexivity|]. now left.
-    + (* neither selected nor shown: silent *)
-      unfold feature_should_run in Hs. apply orb_false_iff in Hs as [_ Hitems].
-      apply existsb_false_forallb in Hitems.
-      apply (silent_fitems cfg Hsh) in E3; [|assumption].
+    + (* neither running nor shown: silent *)
+      assert (Hitems : forallb (fun it => negb (fitem_runs (items_cfg cfg hc) (f_tags f) it)) (f_items f) = true).
+      { rewrite forallb_forall. intros x Hx. apply negb_true_iff.
+        unfold feature_runs in Hs. apply andb_false_iff in Hs as [Hs|Hs].
+        - apply fitem_runs_le.
+          change (fitem_should_run (items_cfg cfg hc) (f_tags f) x) with (fitem_should_run cfg (f_tags f) x).
+          unfold feature_should_run in Hs. apply orb_false_iff in Hs as [_ Hi].
+          destruct (fitem_should_run cfg (f_tags f) x) eqn:Ex; [|reflexivity].
+          assert (existsb (fitem_should_run cfg (f_tags f)) (f_items f) = true)
+            by (apply existsb_exists; exists x; auto). congruence.
+        - apply negb_false_iff in Hs. destruct x as [i|r]; cbn [fitem_runs].
+          + now apply sitem_any_sel_excluded.
+          + unfold rule_runs. rewrite (excluded_inherited _ (r_tags r) _ Hs). apply andb_false_r. }
+      apply (silent_fitems (items_cfg cfg hc) Hsh) in E3; [|assumption].
       rewrite E3. cbn. exists PUri. split; [reflexivity|]. now right.
 Qed.
 
